@@ -63,6 +63,7 @@ type World struct {
 	CurL  map[int][]Pair
 	PrevL map[int][]Pair
 	step  int
+	sched bool // schedsim: several worlds run on different goroutines; do not touch verifrt's global counters
 }
 
 func newWorld(cfg Config) *World {
@@ -197,11 +198,15 @@ func (w *World) exec(i int, op Op) (ev Event) {
 			argLen += len(w.Cur[sh.Of].Href)
 		}
 	}
-	rt.Count = 0
-	rt.Limit = stepLimit(argLen)
+	if !w.sched {
+		rt.Count = 0
+		rt.Limit = stepLimit(argLen)
+	}
 	defer func() {
-		ev.Steps = rt.Count
-		rt.Limit = 0
+		if !w.sched {
+			ev.Steps = rt.Count
+			rt.Limit = 0
+		}
 		if e := recover(); e != nil {
 			if _, ok := e.(rt.StepLimit); ok {
 				ev.Hang = true
